@@ -541,6 +541,14 @@ func (pr *PushRequest) Merge(other *PushRequest) *PushRequest {
 	return pr
 }
 
+// newerPushContext returns the later push context if it is set, and the earlier one otherwise (as Merge does).
+func newerPushContext(earlier, later *PushContext) *PushContext {
+	if later != nil {
+		return later
+	}
+	return earlier
+}
+
 // CopyMerge two update requests together. Unlike Merge, this will not mutate either input.
 // This should be used when we are modifying a shared PushRequest (typically any time it's in the context
 // of a single proxy)
@@ -566,7 +574,7 @@ func (pr *PushRequest) CopyMerge(other *PushRequest) *PushRequest {
 		Forced: pr.Forced || other.Forced,
 
 		// The other push context is presumed to be later and more up to date
-		Push: other.Push,
+		Push: newerPushContext(pr.Push, other.Push),
 
 		// Merge the two reasons. Note that we shouldn't deduplicate here, or we would under count
 		Reason: reason,
